@@ -504,7 +504,7 @@ func TestCheck(t *testing.T) {
 	// AddDuration grid
 	r.Phase("D: AddDuration over base dates x k*24h + delta (k up to +-100000 days; delta 0, +-1ns, +-1s, 12h, 24h-1ns and negatives)", func() {
 		deltas := []int64{0, 1, -1, int64(time.Second), -int64(time.Second), int64(12 * time.Hour), -int64(12 * time.Hour), int64(24*time.Hour) - 1, -(int64(24*time.Hour) - 1), int64(time.Hour), -int64(25 * time.Hour), int64(23*time.Hour + 59*time.Minute)}
-		ks := []int64{0, 1, -1, 2, -2, 27, 28, 29, 30, 31, -31, 59, 60, 365, 366, -365, -366, 1461, 36524, 36525, -36524, 100000, -100000, 106750, -106750}
+		ks := []int64{0, 1, -1, 2, -2, 27, 28, 29, 30, 31, -31, 59, 60, 365, 366, -365, -366, 1461, 36524, 36525, -36524, 100000, -100000, 106750, -106750, 106751, -106751}
 		r.Parallel(int64(len(addBase)), 1, func(w *vkit.W, lo, hi int64) {
 			for i := lo; i < hi; i++ {
 				for _, k := range ks {
